@@ -4,7 +4,7 @@
 # once per refactor; prints "ALARM <refactor> <property>" and compares with refactors/EXPECTED_ALARMS.txt
 cd /verif
 N=${N:-4}
-ALL=$(for i in $(seq 1 20); do printf "C%02d " $i; done)
+ALL=${PROPS:-$(for i in $(seq 1 20); do printf "C%02d " $i; done)}
 ls -d refactors/C*-* > /tmp/xref.list
 rm -f /tmp/xref.out.* /tmp/xref.part.*
 split -n l/$N -d /tmp/xref.list /tmp/xref.part.
